@@ -57,6 +57,7 @@ pub fn generate(rng: &mut Rng, tier: Tier, stats: &mut GenStats) -> Scenario {
         layers: vec![Layer::Not(pf)],
         taps: g.rng.chance(1, 2),
         erased: false,
+        form: g.rng.below(8) as u8,
     };
     Scenario {
         prop: "C03".into(),
